@@ -26,6 +26,8 @@ from engine.runner import Ctx
 from engine.tlc import (MachineryError, cover_behaviours, mktemp, run_tlc, simulate_behaviours,
                         validate_batch)
 
+# the byte-string decoders of HttpWriter.tla recurse once per byte of a line: give TLC's worker a deep stack
+TLC_ENV = {"JAVA_TOOL_OPTIONS": "-Xss256m"}
 MARK = "Zq"
 MARKB = MARK.encode()
 
@@ -35,6 +37,8 @@ NAMED_DEVIATIONS = {
     "LengthOverrunAtEof": "write_eof(data) ignores the declared Content-Length (write() truncates, write_eof() does not)",
     "BodyOnBodylessResponse": "StreamResponse.write()/write_eof(data) emits body bytes on a HEAD / 204 / 304 response",
     "TextPayloadSizeMismatch": "TextIOPayload.size is the file size in bytes, the bytes written are the re-encoded text",
+    "PartialBodyOnRefusal": "MultipartWriter.write() validates a part's headers only after the delimiter line (and every "
+                            "earlier part) has been written",
 }
 
 
@@ -161,8 +165,9 @@ class Scenario:
     and leaves the transport in box[0]; an exception means `refused`."""
 
     def __init__(self, name: str, pos: str, enc: str, fn: Callable[[Kit, str, List[Any]], Any],
-                 tbl: bool = True, whole: bool = False, special: str = "") -> None:
+                 tbl: bool = True, whole: bool = False, special: str = "", unit: str = "head") -> None:
         self.name, self.pos, self.enc, self.fn, self.tbl = name, pos, enc, fn, tbl
+        self.unit = unit            # "head": the bytes are a message head; "body": part head inside a body
         self.whole = whole          # the supplied string is the whole token (may not be empty)
         self.special = special
         self.tmpl: Optional[dict] = None
@@ -216,7 +221,7 @@ class Scenario:
             if enc != "raw":
                 pre, post, enc = _adapt_encoding(wire, t, enc)
         return {"ev": "ser", "scen": self.name, "out": out, "exc": exc, "wire": list(wire), "sup": sup, "enc": enc,
-                "orig": list(cps),
+                "orig": list(cps), "unit": self.unit,
                 "line": t["line"], "pre": list(pre), "post": list(post), "nfields": t["nfields"],
                 "body": list(body), "pos": self.pos, "cls": G.classes_of(cps), "tbl": bool(tbl and self.tbl)}
 
@@ -248,7 +253,7 @@ def build_scenarios() -> List[Scenario]:
 
     # ---------------- client start line and headers
     async def c_method(kit: Kit, s: str, box: List[Any]) -> Any:
-        await kit.client_send(kit.client_req("G" + s + "T"), box)
+        await kit.client_send(kit.client_req("Q" + s + "Z"), box)
 
     async def c_target(kit: Kit, s: str, box: List[Any]) -> Any:
         req = kit.client_req("GET", "http://h/p" + s + "q?k" + s + "=" + s)
@@ -465,16 +470,16 @@ def build_scenarios() -> List[Scenario]:
         fd.add_field("n", b"x", content_type="t/p" + s + "q")
         return fd()
 
-    S += [Scenario("multipart.part-header-name", "part-name", "raw", body(p_name)),
-          Scenario("multipart.part-header-value", "part-value", "raw", body(p_value)),
-          Scenario("payload.content_type", "content-type", "raw", body(p_ctype)),
-          Scenario("payload.disposition-param", "form-name", "qs", body(p_disp_param), whole=True),
-          Scenario("payload.disposition-filename", "form-filename", "pct", body(p_disp_filename), whole=True),
-          Scenario("formdata.name", "form-name", "qs", body(f_name), whole=True),
-          Scenario("formdata.name-unquoted", "", "qs", body(f_name_nq), tbl=False, whole=True),
-          Scenario("formdata.filename", "form-filename", "pct", body(f_filename), whole=True),
-          Scenario("formdata.filename-unquoted", "", "qs", body(f_filename_nq), tbl=False, whole=True),
-          Scenario("formdata.content_type", "content-type", "raw", body(f_ctype))]
+    S += [Scenario("multipart.part-header-name", "part-name", "raw", body(p_name), unit="body"),
+          Scenario("multipart.part-header-value", "part-value", "raw", body(p_value), unit="body"),
+          Scenario("payload.content_type", "content-type", "raw", body(p_ctype), unit="body"),
+          Scenario("payload.disposition-param", "", "qs", body(p_disp_param), tbl=False, whole=True, unit="body"),
+          Scenario("payload.disposition-filename", "", "pct", body(p_disp_filename), tbl=False, whole=True, unit="body"),
+          Scenario("formdata.name", "form-name", "qs", body(f_name), whole=True, unit="body"),
+          Scenario("formdata.name-unquoted", "", "qs", body(f_name_nq), tbl=False, whole=True, unit="body"),
+          Scenario("formdata.filename", "form-filename", "pct", body(f_filename), whole=True, unit="body"),
+          Scenario("formdata.filename-unquoted", "", "qs", body(f_filename_nq), tbl=False, whole=True, unit="body"),
+          Scenario("formdata.content_type", "content-type", "raw", body(f_ctype), unit="body")]
     return S
 
 
@@ -520,7 +525,7 @@ class OpsExec:
                 w.send_headers()
             elif op == "write":
                 if big:
-                    await w.write(data, LIMIT=max(len(data) - 1, 0) if data else 0)
+                    await w.write(data, LIMIT=0)       # stands for a chunk larger than LIMIT
                 else:
                     await w.write(data)
             elif op == "write_eof":
@@ -706,6 +711,11 @@ PAYLOAD_KINDS = ["bytes", "bytearray", "str", "bytesio", "stringio", "file", "te
                  "multipart", "formdata", "formdata-urlencoded", "json"]
 
 
+# MultipartWriter keeps Payload.write_with_length's documented fall-back (the limit is ignored); an
+# application-declared Content-Length smaller than a multipart body is not driven
+NO_LENGTH_LIMIT = ("multipart", "formdata")
+
+
 def make_payload(kit: Kit, kind: str, chunks: List[bytes]) -> Tuple[Any, bytes]:
     """(object accepted as `data=` / `body=`, entity bytes an observer must receive)."""
     from aiohttp import FormData, MultipartWriter, payload
@@ -764,7 +774,7 @@ def payload_of(obj: Any) -> Any:
     return payload.PAYLOAD_REGISTRY.get(obj, disposition=None)
 
 
-def standalone(kit: Kit, kind: str, chunks: List[bytes]) -> Tuple[int, bytes]:
+def standalone(kit: Kit, kind: str, chunks: List[bytes]) -> Tuple[int, bytes, str]:
     """Payload.size and the bytes the payload writes into a plain collecting writer."""
     obj, _ = make_payload(kit, kind, chunks)
     p = payload_of(obj)
@@ -776,12 +786,12 @@ def standalone(kit: Kit, kind: str, chunks: List[bytes]) -> Tuple[int, bytes]:
     except Exception:  # noqa: BLE001
         pass
     kit.loop.run_until_idle()
-    return (-1 if size is None else int(size)), bytes(sink.buf)
+    return (-1 if size is None else int(size)), bytes(sink.buf), type(p).__name__
 
 
 def msg_event(kind: str, role: str, wire: bytes, data: bytes, *, ulen: int = -1, z: str = "",
               bodyless: bool = False, psize: int = -1, pwritten: bytes = b"", recipe: Optional[dict] = None,
-              err: str = "") -> dict:
+              err: str = "", pclass: str = "") -> dict:
     head, sep, body = wire.partition(b"\r\n\r\n")
     inflated: Optional[bytes] = b""
     zlen = -1
@@ -800,7 +810,7 @@ def msg_event(kind: str, role: str, wire: bytes, data: bytes, *, ulen: int = -1,
         zlen = len(zb) if zb is not None else -1
         if inflated is None:
             inflated = b"\xff<inflate failed>"
-    return {"ev": "msg", "kind": kind, "role": role, "wire": list(wire), "data": list(data), "ulen": ulen,
+    return {"ev": "msg", "kind": kind, "pclass": pclass, "role": role, "wire": list(wire), "data": list(data), "ulen": ulen,
             "z": bool(z), "inflated": list(inflated or b""), "zlen": zlen, "bodyless": bool(bodyless),
             "psize": psize, "pwritten": list(pwritten), "err": err, "recipe": recipe or {}}
 
@@ -811,7 +821,7 @@ def run_recipe(kit: Kit, r: dict) -> dict:
     chunks = [letters(o, n) for o, n in r["chunks"]]
     api = r["api"]
     kind = r.get("kind", "bytes")
-    psize, pwritten = -1, b""
+    psize, pwritten, pclass = -1, b"", ""
     err = ""
     if api == "stream-response":
         version = kit.HttpVersion10 if r.get("http10") else kit.HttpVersion11
@@ -831,7 +841,7 @@ def run_recipe(kit: Kit, r: dict) -> dict:
                     await resp.write_eof(c)
                 else:
                     await resp.write(c)
-                if r.get("drain") == k:
+                if r.get("drain") == k and not (r.get("eof_data") and k == len(chunks) - 1):
                     with warnings.catch_warnings():
                         warnings.simplefilter("ignore")
                         await resp.drain()
@@ -846,7 +856,7 @@ def run_recipe(kit: Kit, r: dict) -> dict:
     if api == "response":
         req, tr, _w = kit.server_req(method=r.get("method", "GET"))
         if kind not in ("bytes", "bytearray"):
-            psize, pwritten = standalone(kit, kind, chunks)
+            psize, pwritten, pclass = standalone(kit, kind, chunks)
         obj, entity = make_payload(kit, kind, chunks)
         if entity is None:
             entity = pwritten
@@ -871,9 +881,9 @@ def run_recipe(kit: Kit, r: dict) -> dict:
         kit.loop.run_until_idle()
         bodyless = r.get("method") == "HEAD" or r.get("status", 200) in (204, 304)
         return msg_event(kind, "resp", bytes(tr.written), entity, z=r.get("z", ""), bodyless=bodyless,
-                         psize=psize, pwritten=pwritten, recipe=r, err=err)
+                         psize=psize, pwritten=pwritten, recipe=r, err=err, pclass=pclass)
     if api == "client":
-        psize, pwritten = standalone(kit, kind, chunks)
+        psize, pwritten, pclass = standalone(kit, kind, chunks)
         obj, entity = make_payload(kit, kind, chunks)
         if entity is None:
             entity = pwritten
@@ -890,7 +900,7 @@ def run_recipe(kit: Kit, r: dict) -> dict:
         kit.loop.run_until_idle()
         wire = bytes(box[0].written) if box else b""
         return msg_event(kind, "req", wire, entity, ulen=r.get("ulen", -1), z=r.get("z", ""), psize=psize,
-                         pwritten=pwritten, recipe=r, err=err)
+                         pwritten=pwritten, recipe=r, err=err, pclass=pclass)
     raise MachineryError(f"unknown api {api}")
 
 
@@ -928,7 +938,8 @@ def recipes_from_calls(mode: dict, calls: List[Tuple[str, int, bool]], rng: Any,
     out.append({"api": "response", "kind": kind if kind != "asyncgen" else "bytes", "chunks": pchunks,
                 "chunked": mode["chunked"], "z": ("deflate", "gzip")[k % 2] if mode["compress"] else ""})
     carg = [None, True, False][k % 3] if not mode["compress"] else None
-    culen = mode["length"] if (carg is None and not mode["compress"] and mode["length"] >= 0 and k % 2 == 0) else -1
+    culen = mode["length"] if (carg is None and not mode["compress"] and mode["length"] >= 0 and k % 2 == 0
+                               and kind not in NO_LENGTH_LIMIT) else -1
     out.append({"api": "client", "kind": kind, "chunks": pchunks, "chunked_arg": carg, "ulen": culen,
                 "z": "deflate" if mode["compress"] else ""})
     return out
@@ -943,7 +954,8 @@ def fixed_recipes() -> List[dict]:
         for carg in (None, True, False):
             out.append({"api": "client", "kind": kind, "chunks": pc, "chunked_arg": carg, "ulen": -1, "z": ""})
         out.append({"api": "client", "kind": kind, "chunks": pc, "chunked_arg": None, "ulen": -1, "z": "deflate"})
-        out.append({"api": "client", "kind": kind, "chunks": pc, "chunked_arg": None, "ulen": 2, "z": ""})
+        if kind not in NO_LENGTH_LIMIT:
+            out.append({"api": "client", "kind": kind, "chunks": pc, "chunked_arg": None, "ulen": 2, "z": ""})
         if kind != "asyncgen":
             out.append({"api": "response", "kind": kind, "chunks": pc, "chunked": False, "z": ""})
             out.append({"api": "response", "kind": kind, "chunks": pc, "chunked": True, "z": ""})
@@ -961,8 +973,9 @@ def fixed_recipes() -> List[dict]:
 
 
 # ================================================================== judging
-KEEP = {"ser": ("ev", "out", "wire", "sup", "enc", "line", "pre", "post", "nfields", "body", "pos", "cls", "tbl"),
-        "msg": ("ev", "kind", "role", "wire", "data", "ulen", "z", "inflated", "zlen", "bodyless", "psize",
+KEEP = {"ser": ("ev", "out", "wire", "sup", "enc", "line", "pre", "post", "nfields", "body", "pos", "cls", "tbl",
+                "unit"),
+        "msg": ("ev", "pclass", "role", "wire", "data", "ulen", "z", "inflated", "zlen", "bodyless", "psize",
                 "pwritten", "err"),
         "op": ("ev", "op", "data", "big", "wlen", "nwr", "err", "blocked", "inflated", "zlen")}
 
@@ -976,6 +989,8 @@ def strip_for_tlc(t: dict) -> dict:
 def signature_of(t: dict, v: Any) -> str:
     ev = t["events"][min(v.pos, len(t["events"]) - 1)]
     if ev["ev"] == "ser":
+        if v.clause == "PartialBodyOnRefusal":
+            return f"{v.clause} in {ev['scen']}"
         return f"{v.clause} in {ev['scen']} with classes {'+'.join(sorted(set(ev['cls'])))}"
     if ev["ev"] == "msg":
         r = ev.get("recipe", {})
@@ -995,7 +1010,7 @@ def judge(ctx: Ctx, traces: List[dict], label: str) -> List[Any]:
     if not traces:
         return []
     verdicts, res = validate_batch("HttpWriterTrace", "HttpWriterTrace.cfg", [strip_for_tlc(t) for t in traces],
-                                   timeout=ctx.pick(900, 2400))
+                                   timeout=ctx.pick(900, 2400), env=TLC_ENV)
     if res.violated:
         raise MachineryError(f"reference invariant {res.violated} failed during trace validation ({label}):\n"
                              + "\n".join(res.output.splitlines()[-30:]))
@@ -1083,6 +1098,12 @@ def ops_cfg(maxops: int, maxsize: int, lengths: Sequence[int], mut: str = "") ->
                      OPS_CFG.format(maxops=maxops, maxsize=maxsize, lengths=ls, mut=mut))
 
 
+# scenarios that get every one of the 0x110000 code points in the thorough tier (one per distinct
+# validation / encoding site); the others get the whole BMP + a seeded sample of the astral planes
+PRIMARY = {"client.method", "client.target", "client.target-encoded", "client.header-name", "client.header-value",
+           "client.cookie-value", "server.reason", "server.set_cookie-value", "server.set_cookie-path",
+           "multipart.part-header-value", "formdata.name", "formdata.filename"}
+
 FAST_PATHS = ["WriteCoalesced", "WriteEofCoalesced", "WriteEofCoalescedZ", "SetEofCoalesced"]
 
 
@@ -1119,11 +1140,11 @@ def run_part_a(ctx: Ctx, kit: Kit, scen: List[Scenario]) -> None:
         for sc in by_pos.get(pos, []):
             if sc.whole and not cls:
                 continue
-            variants = G.concretise(cls, ctx.rng, ctx.pick(1, 3))
+            variants = G.concretise(cls, ctx.rng, ctx.pick(0, 2))
             for k, cps in enumerate(variants):
                 traces.append(ser_trace(sc.event(kit, cps, tbl=(k == 0)), "tlc-cover"))
                 nrun += 1
-        if len(traces) >= 6000:
+        if len(traces) >= 10000:
             judge(ctx, traces, "class-strings")
             traces = []
     if traces:
@@ -1131,58 +1152,55 @@ def run_part_a(ctx: Ctx, kit: Kit, scen: List[Scenario]) -> None:
     judge(ctx, traces, "class-strings")
     ctx.log(f"class strings: {len(pairs)} (position, string) pairs from TLC, {nrun} executions")
     ctx.extra["class_string_pairs"] = len(pairs)
-    # ---- 3. every code point, alone, in every scenario
-    singles = G.single_code_points(ctx.quick, ctx.rng, sample=ctx.pick(256, 2048))
+    # ---- 3. every code point in every scenario.  Alone below `single_below`; the rest in blocks of
+    #         consecutive code points: an emitted block is judged as one string (the line must equal
+    #         the encoding of all its members), a refused block is split until every refused code
+    #         point has been refused alone with zero bytes written.
+    single_below = ctx.pick(0x100, 0x800)
+    extra = [c for c in G.single_code_points(ctx.quick, ctx.rng, sample=ctx.pick(24, 2048)) if c >= 0x800]
+    full = [(0x800, 0xD7FF), (0xD800, 0xDFFF), (0xE000, 0x10FFFF)]
+    bmp = [(0x800, 0xD7FF), (0xD800, 0xDFFF), (0xE000, 0xFFFF)]
     traces = []
     counts: Dict[str, Dict[str, int]] = {}
+    nblocks = 0
     for sc in scen:
         c = counts.setdefault(sc.name, {"emitted": 0, "refused": 0})
-        for cp in singles:
+        for cp in list(range(single_below)) + extra:
             ev = sc.event(kit, [cp], tbl=False)
             c[ev["out"]] += 1
             traces.append(ser_trace(ev, "sweep"))
-            if len(traces) >= 8000:
+        if sc.special == "boundary" and not ctx.quick:
+            continue                         # boundaries are ASCII-only and at most 70 characters
+        ranges = ctx.pick([(single_below, 0x7FF)], full if sc.name in PRIMARY else bmp)
+        for lo, hi in ranges:
+            for blk in G.blocks(lo, hi, ctx.pick(64, 128)):
+                stack = [blk]
+                while stack:
+                    b = stack.pop()
+                    ev = sc.event(kit, b, tbl=False)
+                    if ev["out"] == "refused" and len(b) > 1:
+                        mid = len(b) // 2
+                        stack += [b[mid:], b[:mid]]
+                        if not ev["wire"]:
+                            continue          # nothing written: the halves decide
+                    else:
+                        c[ev["out"]] += len(b)
+                    traces.append(ser_trace(ev, "blocks"))
+                    nblocks += 1
+            if len(traces) >= 30000:
                 judge(ctx, traces, "sweep")
                 traces = []
     judge(ctx, traces, "sweep")
-    ctx.log(f"single code points: {len(singles)} x {len(scen)} scenarios")
-    # ---- 3b. thorough: all remaining code points in blocks (a refused block is split)
-    if not ctx.quick:
-        traces = []
-        nblocks = 0
-        for sc in scen:
-            c = counts[sc.name]
-            if sc.special == "boundary":
-                continue                     # boundaries are ASCII-only and at most 70 characters
-            for lo, hi in ((0x800, 0xD7FF), (0xD800, 0xDFFF), (0xE000, 0x10FFFF)):
-                for blk in G.blocks(lo, hi, 64):
-                    stack = [blk]
-                    while stack:
-                        b = stack.pop()
-                        ev = sc.event(kit, b, tbl=False)
-                        if ev["out"] == "refused" and len(b) > 1:
-                            mid = len(b) // 2
-                            stack += [b[:mid], b[mid:]]
-                            if ev["wire"]:
-                                traces.append(ser_trace(ev, "blocks"))
-                            continue
-                        c[ev["out"]] += len(b)
-                        traces.append(ser_trace(ev, "blocks"))
-                        nblocks += 1
-                    if len(traces) >= 4000:
-                        judge(ctx, traces, "blocks")
-                        traces = []
-        judge(ctx, traces, "blocks")
-        ctx.log(f"blocks: {nblocks} block executions cover 0x800..0x10FFFF in every scenario")
+    ctx.log(f"code points: {single_below}+{len(extra)} alone, {nblocks} block executions, in each of {len(scen)} scenarios")
     ctx.extra["code_point_outcomes_per_scenario"] = counts
     # ---- 4. random hostile strings
     traces = []
-    for cps in G.random_strings(ctx.rng, ctx.pick(150, 1500)):
+    for cps in G.random_strings(ctx.rng, ctx.pick(60, 1500)):
         for sc in scen:
             if sc.whole and not cps:
                 continue
             traces.append(ser_trace(sc.event(kit, cps, tbl=False), "random"))
-        if len(traces) >= 6000:
+        if len(traces) >= 10000:
             judge(ctx, traces, "random-strings")
             traces = []
     judge(ctx, traces, "random-strings")
@@ -1269,7 +1287,9 @@ def run(ctx: Ctx) -> None:
         "of the emitted line with it are judged",
         "zlib is a black box: the harness inflates the de-framed body once, TLA+ compares the result with the data",
         "request/response heads in part (b) carry harmless header values",
-        "multipart / FormData entity = what the payload writes standalone (codec correctness is C19)",
+        "multipart / FormData entity = what the payload writes standalone (codec correctness is C19); an "
+        "application-declared Content-Length shorter than a multipart body is not driven (MultipartWriter keeps the "
+        "documented write_with_length fall-back that ignores the limit)",
     ]
     warnings.simplefilter("ignore")
     kit = Kit()
@@ -1327,7 +1347,7 @@ def selftest(ctx: Ctx) -> int:
         bad_msg2["events"][0]["psize"] = 6
         batch = [good_ser, refused, inj, partial, barelf, good_ops, bad_ops1, bad_ops2, bad_ops3, good_msg, bad_msg,
                  bad_msg2]
-        vs, _ = validate_batch("HttpWriterTrace", "HttpWriterTrace.cfg", [strip_for_tlc(t) for t in batch])
+        vs, _ = validate_batch("HttpWriterTrace", "HttpWriterTrace.cfg", [strip_for_tlc(t) for t in batch], env=TLC_ENV)
         got = [(v.ok, v.clause) for v in vs]
         print("trace verdicts:", got)
         want_ok = [True, True, False, False, False, True, False, False, False, True, False, False]
@@ -1384,7 +1404,7 @@ def replay(ctx: Ctx, path: str) -> int:
             calls = [(e["op"], len(e["data"]), bool(e["big"])) for e in t["events"]]
             new = replay_ops(kit, {"chunked": c["chunked"], "length": c["length"], "compress": c["compress"]},
                              calls, "replay")
-        vs, _ = validate_batch("HttpWriterTrace", "HttpWriterTrace.cfg", [strip_for_tlc(new)])
+        vs, _ = validate_batch("HttpWriterTrace", "HttpWriterTrace.cfg", [strip_for_tlc(new)], env=TLC_ENV)
         v = vs[0]
         print(f"replay: ok={v.ok} clause={v.clause!r} pos={v.pos}/{v.total}")
         print(json.dumps(sample_of(new))[:600])
